@@ -118,14 +118,13 @@ Inductive mk_case :=
 | MkIter (sh : shape) (items : list (idx * Z)) (fill : Z) (f : fmtZ) (out : sarr)
 | MkDense (d : dense Z) (fill : Z) (f : fmtZ) (out : sarr)
 | MkScipyCoo (sh : shape) (coords : list idx) (data : list Z) (f : fmtZ) (out : sarr)
-| MkScipyCs (axis : Z) (sh : shape) (data indices indptr : list Z) (passthrough : bool) (f : fmtZ) (out : sarr).
+| MkScipyCs (axis : Z) (sh : shape) (data indices indptr : list Z) (f : fmtZ) (out : sarr).
 
 Definition is_value (o : sarr) : bool :=
   match o with SCoo _ | SGcxs _ | SDok _ _ _ | SDense _ => true | _ => false end.
 
 (* 0 ok | 1 representation | 2 value | 3 canonical form | 4 exception on valid input |
-   5 exception the model reproduces (clause zero_dim_from_iter) | 6 malformed input accepted |
-   8 non-canonical scipy input passed through (clause scipy_noncanonical) *)
+   5 exception the model reproduces (clause zero_dim_from_iter) | 6 malformed input accepted *)
 Definition judge_model_vs (m : res reprZ) (valid : bool) (o : sarr) (sh : shape) (fill : Z) (flat : list Z) : Z :=
   if negb valid then (if is_exc o then 0 else 6)
   else match m with
@@ -153,22 +152,16 @@ Definition judge_make (c : mk_case) : Z :=
     judge_model_vs (bind (coo_make_checked Z.eqb Z.add false true false sh coords data 0)
                          (fun x => convert Z.eqb Z.add f (RCoo x)))
                    valid o sh 0 (spec_flat sh (combine coords data) 0)
-  | MkScipyCs axis sh data indices indptr pass f o =>
-    let g := mkGCXS sh [axis] data indices indptr 0 in
+  | MkScipyCs axis sh data indices indptr f o =>
+    (* a csr (axis 0) / csc (axis 1) matrix, canonical or not (unsorted, duplicated indices): the result
+       is the compressed / COO / DOK form of the canonical COO that sums the duplicates *)
     let rows := row_numbers indptr in
     let coords := map (fun rc => if axis =? 0 then [fst rc; snd rc] else [snd rc; fst rc]) (combine rows indices) in
-    let flat := spec_flat sh (combine coords data) 0 in
-    if gcxs_wfb g then
-      (* canonical input: the result is the canonical form in the requested format *)
-      judge_model_vs (convert Z.eqb Z.add f (RGcxs g)) (hop_okb sh f) o sh 0 flat
-    else
-      (* non-canonical input: the code passes the arrays through (pass = true: into a compressed
-         format of the same orientation); the Spec still demands a canonical result with the
-         summed meaning *)
-      if is_exc o then 4
-      else let v := spec_only o sh 0 flat in
-           if negb (v =? 0) then (if pass then 8 else v)
-           else 0
+    let valid := forallb (in_rangeb sh) coords && (length data =? length coords)%nat
+                 && (length indices =? length data)%nat && hop_okb sh f in
+    judge_model_vs (bind (coo_make_checked Z.eqb Z.add false true false sh coords data 0)
+                         (fun x => convert Z.eqb Z.add f (RCoo x)))
+                   valid o sh 0 (spec_flat sh (combine coords data) 0)
   end.
 
 (* ------------------------------------------------------------------ kernels *)
